@@ -419,7 +419,7 @@ def build() -> Check:
     (ce_set, ce_wait), ce_rules, ce_an = completion_event_publication(prog)
     ck.analysed["completion_event"] = ce_an
     for suffix, ok, detail in ce_rules:
-        ck.ob(f"R2.completion-event-" + suffix, fn_construct(ce_wait if suffix.startswith("slot") else ce_set), ok, detail + ("" if ok else " - the blocked caller is woken WITHOUT the failure and goes on"))
+        ck.ob(f"R2.completion-event-" + suffix, fn_construct(ce_wait if suffix.startswith(("slot", "wait")) else ce_set), ok, detail + ("" if ok else " - the blocked caller is woken WITHOUT the failure and goes on"))
     return ck
 
 
